@@ -365,6 +365,7 @@ func rulesC12(w *World, r *Report) {
 		o.Trivial = len(writes[g]) == 0
 	}
 	w.ruleSharedPoolAliases(r, "C12.R6 memory put back into a shared pool is not handed out")
+	w.ruleNoProcessWideMemo(r, "C12.R7 results do not depend on a process-wide memo", reach, len(roots))
 	r.role("package-level variables", gnames)
 	// the floor counts the variables that can carry shared state (maps, slices,
 	// pointers, interfaces, structs): a scalar such as a chunk size kept in a var
